@@ -130,6 +130,14 @@ func checkStress32(sc scenarioT, r *evid.Rec) []evid.Disc {
 	}
 	res := cr.Res
 	for _, p := range res.Panics {
+		if strings.HasPrefix(p, "closer:") {
+			// Server.Close() itself panicked: the broker is shutting down, "keeps serving" does not apply and nothing
+			// waits for a lock. Recorded, not judged here (seen: "sync: WaitGroup is reused before previous Wait has
+			// returned" in Listeners.CloseAll, the consequence of the ClientsWg.Add / Wait race that C33 reports).
+			r.Label("stress:panic-in-Server.Close(recorded, not judged)")
+			r.Set("panic_in_server_close_sample", p)
+			continue
+		}
 		fn := "unknown"
 		for _, g := range parseDump("goroutine 0 [running]:\n" + afterFirstLine(p)) {
 			if fr := g.repoFrames(); len(fr) > 0 {
